@@ -82,8 +82,12 @@ impl Selector {
         let timeout_ms = _timeout
             .map(|to| EpollTimeout::try_from(to.div_ceil(1_000_000)).unwrap())
             .unwrap_or(EpollTimeout::NONE);
+        // no timer to wait for: block, unless the event loop asks for a poll only
         #[cfg(not(feature = "io_timeout"))]
-        let timeout_ms = EpollTimeout::NONE;
+        let timeout_ms = match _timeout {
+            Some(0) => EpollTimeout::ZERO,
+            _ => EpollTimeout::NONE,
+        };
         // info!("select; timeout={:?}", timeout_ms);
 
         let single_selector = &self.vec[id];
